@@ -82,11 +82,15 @@ pub fn run_case(toks: &[&str], em: &mut Emitter) {
         let plen = payload.len();
         let pipe = Pipe::new(vec![], vec![]).with_wsched(ws).with_werr(we);
         let t = tpkt::Client::new(Link::new(Stream::Raw(pipe.clone())));
-        let r = if op == "x224_write" {
+        // `_sd`: shutdown() was called on the client before (on a raw stream it leaves the stream as it is): the message is
+        // still emitted as one exact frame, or refused
+        let r = if op == "x224_write" || op == "x224_write_sd" {
             let mut x = x224::Client::verif_new(t, x224::Protocols::ProtocolSSL);
+            if op == "x224_write_sd" { let _ = x.shutdown(); }
             x.write(payload)
         } else {
             let mut t = t;
+            if op == "tpkt_write_sd" { let _ = t.shutdown(); }
             t.write(payload)
         };
         let out = pipe.written();
@@ -130,6 +134,11 @@ pub fn generate(thorough: bool, seed: u64, part: (usize, usize), em: &mut Emitte
                 emit(em, "x224_write", &format!("pat:{}:2", len), w);
             }
         }
+        // a write after shutdown() on the same client (raw stream): one exact frame all the same, oversize still refused
+        for &len in &[0usize, 1, 20, 300, 65531, 65532, 70000] { for w in &["-", "1,1,1,1,1,1,1,1,1,1,1,1,1,1,1,1,1,1,1,1,1,1,1,1,1,1,1,1,1,1", "3,1000,1000,100000"] {
+            emit(em, "tpkt_write_sd", &format!("pat:{}:3", len), w);
+            emit(em, "x224_write_sd", &format!("pat:{}:4", len), w);
+        } }
         // small payloads: an error or a zero-length accept injected at every call position, caps 1..4
         let maxp = if thorough { 24 } else { 8 };
         for len in 0..=maxp {
